@@ -16,13 +16,14 @@ from vlib.engine import Engine, EngineUnknown, Infeasible
 LEVEL = 'exploration'
 ASSUME = [
     'histories of length <= H from the empty circuit, at most 4 nodes alive (or: first step = one of 3 small netlists built through the bench front end, then H-1 edits, at most 9 nodes); operations: add cell, add fork, add line (implicit pins), add line (explicit free pins, pin numbers < 3), remove line, '
-    'remove unconnected node, eliminate_1to1_forks, substitute (3 implementations), copy, pickle round trip',
+    'remove unconnected node, eliminate_1to1_forks, substitute (4 implementations incl. one that ignores an input), copy, pickle round trip',
     'well-formed use as in the statement: explicit pins only on free positions; explicit output pins of forks only at the first free position (fork outputs are gap-free by contract); nodes removed only when unconnected; '
     'substitute only on non-port cells whose connected pins fit the implementation and at most once per instance name (derived node names must stay unique - documented precondition)',
     'exhaustive within the bound; the solver only decides the feasibility of explicit pin choices',
 ]
 
-IMPLS = ['input(A,B) output(Y) Y=AND2(A,B)', 'input(A) output(Y,Z) Y=INV1(A) Z=BUF1(Y)', 'input(A,B) output(Y) T=OR2(A,B) Y=XOR2(T,A)']
+IMPLS = ['input(A,B) output(Y) Y=AND2(A,B)', 'input(A) output(Y,Z) Y=INV1(A) Z=BUF1(Y)', 'input(A,B) output(Y) T=OR2(A,B) Y=XOR2(T,A)',
+         'input(A,B,C) output(Y) X=INV1(C) Y=AND2(X,A)']       # ignores input B while pin 1 of the designated cell is in use
 KINDS = ['AND2', 'DFF', 'input']
 SEEDS = ['input(a,b) output(z) z=and(a,b)', 'input(a) output(z,y) x=not(a) z=buf(x) y=or(x,a)', 'input(a) output(q) q=dff(d) d=xor(q,a)']
 
